@@ -175,6 +175,11 @@ fn corpus_programs(tier: &str, with_comments: bool) -> (Vec<(String, String)>, V
     for p in lives {
         progs.push(("LIVE".into(), p));
     }
+    let rots = corpus::gen_rot(sd, if thorough { 300 } else { 40 });
+    let rot_count = rots.len();
+    for p in rots {
+        progs.push(("ROT".into(), p));
+    }
     let structs = corpus::gen_struct(sd, if thorough { 3000 } else { 500 });
     let struct_count = structs.len();
     for p in structs {
@@ -215,6 +220,7 @@ fn corpus_programs(tier: &str, with_comments: bool) -> (Vec<(String, String)>, V
         "RAND": format!("{} short random programs from a grammar biased to clear loops, scans, (un)balanced loops and I/O next to loops (seed {})", rand_count, sd),
         "PRESSURE": format!("{} programs keeping values alive across loops, ifs and I/O (copy idioms inside input-controlled nested loops; seed {})", press_count, sd),
         "LIVE": format!("{} programs keeping 3..14 values alive across I/O and far moves (seed {})", live_count, sd),
+        "ROT": format!("{} k-cell rotations with arithmetic inside an input-controlled loop, k up to 16 (stack temporaries in the JIT; seed {})", rot_count, sd),
         "STRUCT": format!("{} structured programs (assignments, preserving/destructive multiply-adds, counted loops, ifs over 4 variables; seed {})", struct_count, sd),
         "REPO": format!("{} programs extracted from src/exec/testdef.rs and examples/", repo_count),
         "COMMENT": format!("{} programs with an interleaved comment / multi-byte character", comment_count),
@@ -224,6 +230,15 @@ fn corpus_programs(tier: &str, with_comments: bool) -> (Vec<(String, String)>, V
 }
 
 fn jobs_for(progs: &[(String, String)], ws: &[u32]) -> Vec<Job> {
+    // development aid: restrict the corpus to one family (never set by ./check)
+    let only = std::env::var("SYMX_ONLY_FAMILY").ok();
+    let filtered: Vec<(String, String)>;
+    let progs: &[(String, String)] = if let Some(f) = &only {
+        filtered = progs.iter().filter(|(t, _)| t.starts_with(f.as_str())).cloned().collect();
+        &filtered
+    } else {
+        progs
+    };
     let mut jobs = Vec::new();
     // solver-relevant programs first so the time box cuts the cheap tail, not the interesting head
     // interleave the corpus families round-robin so that a time box cuts every family
